@@ -440,7 +440,7 @@ def search_task(t):
         exe = os.path.join(root, "bin", "jaq")
         shutil.copy2(jaq, exe)
         for v in variants:
-            for d in ("home", "work", "lib1", "lib2", "lib/jq", "lib", "mainfiles"):
+            for d in ("home", "work", "lib1", "lib2", "lib/jq", "lib", "mainfiles", "bin/om", "bin/ol"):
                 shutil.rmtree(os.path.join(root, d), ignore_errors=True)
             home, work = os.path.join(root, "home"), os.path.join(root, "work")
             os.makedirs(home)
